@@ -258,7 +258,7 @@ class Command():
         numparams = []
         words = []
         for x in spline[1:]:  # all values after SHELX card
-            if str.isdigit(x[0]) or x[0] in '+-':
+            if str.isdigit(x[0]) or x[0] in '+-.':
                 if intnums:
                     numparams.append(int(x))
                 else:
